@@ -484,8 +484,14 @@ def run_twin(sa, orm, R, zoo, engine, spy, hist, rd, mode):
             if objs[k] is None or not sa.inspect(objs[k]).persistent or objs[k] in s.deleted:
                 out["skip"] = "lazy-owner-missing"
                 return out
-            with s.no_autoflush:
-                s.expire(objs[k], [rd["rel"]])
+            if rd["rel"] in objs[k].__dict__:
+                if sa.inspect(objs[k]).attrs[rd["rel"]].history.has_changes():
+                    # expiring an attribute that carries a pending change would throw half
+                    # of a bidirectional change away (C46's subject, not autoflush)
+                    out["skip"] = "lazy-attr-has-pending-change"
+                    return out
+                with s.no_autoflush:
+                    s.expire(objs[k], [rd["rel"]])
         if rd["kind"] == "get":
             # the property speaks of an *absent* identity: a key already in the identity
             # map (incl. an object marked deleted but not flushed) is served without SQL
